@@ -776,6 +776,7 @@ class Runner:
                     at = op.get("at_line") or 1
                 at = dp.avoid_restoring(at)
                 tf = TraceFault(core.REPO, at, excs[op["exc"]])
+                tf.avoid_lines = dp.restoring_lines()
                 mine = None
                 try:
                     with tf:
